@@ -20,6 +20,13 @@ Definition sg_tol : A := mul NM (sg_eps P) (sg_gamma P).
 Definition last_it (el : epoch_log) : vec :=
   match el with [] => x0 | (_, x1, _, _) :: _ => x1 end.
 
+(* the stopping rule over ALL coordinates, stated by index and independently of the model's
+   walk: coordinate i for every i below the longer dimension, a missing entry reads as zero *)
+Definition all_coords (xs x1 : vec) : list (A * A) :=
+  map (fun i => (nth i xs (zero NM), nth i x1 (zero NM))) (seq 0 (Nat.max (length xs) (length x1))).
+Definition sg_eval_stop_all (xs x1 : vec) (eps : A) : stop_res (A := A) :=
+  sg_decide NM eps (sg_scan NM (all_coords xs x1) (zero NM) (zero NM)).
+
 (* a log entry (xs, x1, delta, stop) IS the coded test evaluated on (xs, x1) *)
 Definition entry_ok (e : vec * vec * A * bool) : Prop :=
   let '(xs, x1, d, b) := e in
